@@ -923,6 +923,16 @@ func bitFlips(h *honest, t target, every int, r *lib.Rng) {
 	}
 }
 
+// extendNonce inserts extra behind the 16 nonce octets of the authenticator at pos
+// and adjusts the Nonce Length field and the length of the extension field.
+func extendNonce(b []byte, pos int, k int, extra []byte) []byte {
+	c := append(clone(b[:pos+24]), extra...)
+	c = append(c, b[pos+24:]...)
+	binary.BigEndian.PutUint16(c[pos+2:], binary.BigEndian.Uint16(b[pos+2:])+uint16(k))
+	binary.BigEndian.PutUint16(c[pos+4:], uint16(16+k))
+	return c
+}
+
 func fieldMutations(h *honest, t target, r *lib.Rng) {
 	hs := []*honest{h}
 	types := []uint16{0x104, 0x204, 0x304, 0x404, 0, 0xffff, 0x8404, 0x405, 0x105}
@@ -966,6 +976,13 @@ func fieldMutations(h *honest, t target, r *lib.Rng) {
 			deliver("nt,mut,ctlen", hs, t, put16(h.b, h.pos+6, uint16(cl)))
 		}
 	}
+	// the nonce field extended: k octets inserted between the sender's 16 nonce octets and
+	// the ciphertext, Nonce Length = 16+k, the extension field length adjusted - a packet the
+	// key holder never produced
+	for _, k := range []int{4, 8, 16, 1} {
+		deliver("nt,mut,nonceext", hs, t, extendNonce(h.b, h.pos, k, r.Bytes(k)))
+	}
+	deliver("nt,mut,nonceext", hs, t, extendNonce(h.b, h.pos, 4, make([]byte, 4)))
 	// both lengths changed so that nonce+ciphertext still cover the same bytes
 	c := put16(put16(h.b, h.pos+4, 12), h.pos+6, uint16(ctl+4))
 	deliver("nt,mut,lensplit", hs, t, c)
@@ -1391,7 +1408,7 @@ func encodeBoundaries(r *lib.Rng, n int) {
 	}
 	// NewResponsePacket / NewRequestPacket at their boundaries
 	for i := 0; i < n/4+4; i++ {
-		cl := lib.Pick(r, 0, 1, 3, 4, 100, 104, 124, 125, 300, 900)
+		cl := lib.Pick(r, 0, 1, 3, 4, 100, 104, 124, 125, 300, 900, 148, 224, 300, 448, 452, 145, 297)
 		k := 1 + r.Intn(9)
 		var cs [][]byte
 		for j := 0; j < k; j++ {
